@@ -8,6 +8,7 @@
 package c16
 
 import (
+	"time"
 	"encoding/csv"
 	"encoding/json"
 	"fmt"
@@ -80,6 +81,9 @@ type Tree struct {
 	// Second, when set, is reported after this tree by a second invocation in the same working
 	// directory (so the coca_reporter directory of the first run is still there).
 	Second *Tree `json:"second,omitempty"`
+	// Backdated: every file and directory of the tree carries a modification time one hour back when the first
+	// report is made (an existing code base, not one written a moment ago)
+	Backdated bool `json:"backdated,omitempty"`
 }
 
 type Sweep struct {
@@ -675,6 +679,22 @@ func genTree(t *rapid.T) Tree {
 	// tree under other options or of another tree that shares directory names with the first
 	if tr.DirForm != 4 {
 		switch rapid.IntRange(0, 7).Draw(t, "second") {
+		case 4:
+			// eighth seed batch: the same report once more, same options, after one to three files of the tree have
+			// grown in place (no directory gets or loses an entry); the tree is an hour old when the first report is made
+			sec := tr
+			sec.Second = nil
+			sec.Files = append([]File(nil), tr.Files...)
+			if len(sec.Files) > 0 {
+				for k := rapid.IntRange(1, 3).Draw(t, "grownFiles"); k > 0; k-- {
+					i := rapid.IntRange(0, len(sec.Files)-1).Draw(t, "grownFile")
+					f := sec.Files[i]
+					f.Lines = append(append([]Line(nil), f.Lines...), f.Lines...)
+					sec.Files[i] = f
+				}
+				tr.Backdated = true
+				tr.Second = &sec
+			}
 		case 5:
 			sec := tr
 			sec.Second = nil
@@ -1320,9 +1340,20 @@ func checkTree(tr Tree) pbt.Verdict {
 	}
 	_, cwd1, _ := tr.layout(base1)
 	_, cwd2, _ := tr.layout(base2)
-	for _, x := range seq {
-		x.write(base1)
-		x.write(base2)
+	// every tree is written right before it is reported (a second state of the same tree replaces the first one
+	// in place after the first report)
+	prepare := func(i int, base string) {
+		seq[i].write(base)
+		if i == 0 && tr.Backdated {
+			root, _, _ := tr.layout(base)
+			old := time.Now().Add(-time.Hour)
+			_ = filepath.Walk(root, func(p string, _ os.FileInfo, err error) error {
+				if err == nil {
+					_ = os.Chtimes(p, old, old)
+				}
+				return nil
+			})
+		}
 	}
 	var msgTop string
 	var mism int
@@ -1331,6 +1362,7 @@ func checkTree(tr Tree) pbt.Verdict {
 	go func() {
 		defer close(done)
 		for i, x := range seq {
+			prepare(i, base2)
 			m, n := checkTopFile(x, base2, cwd2, &obs)
 			mism += n
 			if m != "" {
@@ -1344,6 +1376,7 @@ func checkTree(tr Tree) pbt.Verdict {
 	}()
 	msgDir := ""
 	for i, x := range seq {
+		prepare(i, base1)
 		m := checkByDirectory(x, base1, cwd1)
 		if m != "" {
 			msgDir = m
